@@ -1749,18 +1749,13 @@ class ShortcutNode(ListNode):
         elif self._type == Shortcuts.REPEAT:
             if len(self.nodes) == 0 and node.value is not None:
                 return True
+            # The text written is ``nodes[0] nR``: every node has to match the first one.
+            # (Matching the neighbour only is not enough: closeness is not transitive.)
             if direction == 1:
-                edge = self.nodes[-1]
+                others = [self.nodes[0]]
             else:
-                edge = self.nodes[0]
-            if edge.type != node.type or edge.value is None or node.value is None:
-                return False
-            if edge.type in {int, float} and math.isclose(
-                edge.value, node.value, rel_tol=rel_tol, abs_tol=abs_tol
-            ):
-                return True
-            elif edge.value == node.value:
-                return True
+                others = self.nodes
+            return all(self._is_same_repeat_value(other, node) for other in others)
 
         # INTERPOLATE
         elif self._type in {Shortcuts.INTERPOLATE, Shortcuts.LOG_INTERPOLATE}:
@@ -1779,6 +1774,21 @@ class ShortcutNode(ListNode):
             if len(self.nodes) == 1 and not self._full:
                 return True
         return False
+
+    @staticmethod
+    def _is_same_repeat_value(edge, node):
+        """
+        Whether ``node`` holds the value of ``edge`` as far as a repeat shortcut is concerned.
+
+        :rtype: bool
+        """
+        if edge.type != node.type or edge.value is None or node.value is None:
+            return False
+        if edge.type in {int, float}:
+            return math.isclose(
+                edge.value, node.value, rel_tol=rel_tol, abs_tol=abs_tol
+            )
+        return edge.value == node.value
 
     def _is_valid_interpolate_edge(self, node, direction):
         """
